@@ -601,3 +601,68 @@ func fetchSessions(run *vh.Run, n int) {
 		}
 	}
 }
+
+// unlinkedAnnouncement: the sync peer announces ids that do not form a chain (every block is genuine,
+// no header is altered): ids of two different branches in one hash set, cut into two fetch tasks. Inside
+// a chunk the processor checks the parent links (isValidResponse); across two chunks, and between the
+// ancestor and the first block, nothing does (popFromConnQueue looks at the height only). Candidate
+// finding: the second block handed to the chain service is not a child of the first. Counted only.
+func unlinkedAnnouncement(run *vh.Run) {
+	for variant := 0; variant < 2; variant++ {
+		s := &fsess{run: run, rng: run.Rng, wild: true}
+		s.anc, s.target, s.npeers, s.T, s.hashReq = 3, 5, 2, 1, 4
+		base := newChain(nil, -1, 2, 8801)
+		s.remote = newChain(base, 2, 8, 8802)  // the ancestor (height 3) is on this branch
+		s.alt = newChain(s.remote, 3, 8, 8803) // shares the ancestor, own blocks from height 4
+		low := newChain(base, 2, 8, 8804)      // forks BELOW the ancestor
+		ancBlk := s.remote.blocks[s.anc]
+		s.req = &recReq{}
+		s.req.future = func(msg interface{}) (interface{}, error) {
+			if _, ok := msg.(*message.GetPeers); ok {
+				return peersRsp(s.npeers), nil
+			}
+			return nil, errStub
+		}
+		cfg := syncer.VerifC17NewCfg(4, 1, 4, 2, time.Duration(s.T)*unit+unit/2, false)
+		ctx := types.NewSyncCtx(3, peerID(0), uint64(s.target), uint64(s.anc), nil)
+		ctx.SetAncestor(ancBlk)
+		s.do(fmt.Sprintf("new 1 2 4 %d %d %d %s", s.T, s.target, s.npeers, blkTok(ancBlk)), func() error {
+			s.bf = syncer.VerifC17NewBlockFetcher(ctx, s.req, cfg)
+			return s.bf.VerifC17Init()
+		})
+		var first, second *types.Block
+		if variant == 0 {
+			first, second = s.remote.blocks[4], s.alt.blocks[5] // a child of the ancestor, then a block of the other branch
+		} else {
+			first, second = low.blocks[4], low.blocks[5] // the first block is not a child of the ancestor
+		}
+		s.pushHashSet(4, [][]byte{first.GetHash(), second.GetHash()})
+		s.sched()
+		byHash := map[string]*types.Block{string(first.GetHash()): first, string(second.GetHash()): second}
+		for len(s.fetches) > 0 && !s.stopped {
+			f := s.fetches[0]
+			s.fetches = s.fetches[1:]
+			var bs []*types.Block
+			for _, h := range f.hashes {
+				bs = append(bs, byHash[string(h)])
+			}
+			s.reply(f.peer, false, bs)
+		}
+		for len(s.adds) > 0 && !s.stopped {
+			b := s.adds[0]
+			s.adds = s.adds[1:]
+			s.addRsp(b.GetHeader().GetBlockNo(), b.GetHash(), false)
+		}
+		prev := ancBlk.GetHash()
+		for k, b := range s.delivered {
+			if string(b.GetHeader().GetPrevBlockHash()) != string(prev) {
+				run.Count(fmt.Sprintf("candidate:C17-unlinked-announcement-delivered:variant%d", variant))
+				run.Sample(fmt.Sprintf("candidate C17-unlinked-announcement-delivered (variant %d): delivery #%d %s is not a child of %d; session %v",
+					variant, k, blkTok(b), tok(prev), s.ops))
+				break
+			}
+			prev = b.GetHash()
+		}
+		run.Count("unlinked-announcement:scripted")
+	}
+}
